@@ -44,6 +44,7 @@ def run(ctx, chk):
     chk.floor("C03.L1", n, 4, "reset stores")
     reach_cond = disc_cond = None
     n_reach = n_disc = 0
+    blind = {}
     for K in ctx.action_classes:
         if K not in REQUIRED:
             continue
@@ -52,6 +53,10 @@ def run(ctx, chk):
         for o in cf.outcomes:
             succ = o.flag("success") is True
             for e in cf.net_effects(o):
+                if succ and e["kind"] == "row" and str(e.get("addr", "")).startswith("#("):
+                    # a store addressed by an index expression (array of rows, mask, (rows, col)
+                    # pair) instead of one host's address: not decoded
+                    blind.setdefault(K, []).append(e["loc"])
                 if e["kind"] != "cell" or e["fam"] not in ("reachable", "discovered"):
                     continue
                 fam = e["fam"]
@@ -94,11 +99,16 @@ def run(ctx, chk):
                             "condition": f_show(cond)})
         if K == "SubnetScan":
             check_result_maps(chk, cf)
-    chk.ob("C03.L2.exists", "a successful Exploit extends reachability (store to `reachable` "
-           "found on its success exits)", n_reach >= 1, f"{n_reach} store(s)",
-           "nasim/envs/network.py")
-    chk.ob("C03.L3.exists", "a successful SubnetScan discovers hosts (store to `discovered` found "
-           "on its success exit)", n_disc >= 1, f"{n_disc} store(s)", "nasim/envs/network.py")
+    for rule, K_, n_, desc in (
+            ("C03.L2.exists", "Exploit", n_reach, "a successful Exploit extends reachability (store "
+             "to `reachable` found on its success exits)"),
+            ("C03.L3.exists", "SubnetScan", n_disc, "a successful SubnetScan discovers hosts (store "
+             "to `discovered` found on its success exit)")):
+        if n_ == 0 and blind.get(K_):
+            chk.undecided(rule, desc, "0 decoded store(s); stores addressed by an index expression "
+                          f"were not decoded: {sorted(set(blind[K_]))[:3]}", "nasim/envs/network.py")
+        else:
+            chk.ob(rule, desc, n_ >= 1, f"{n_} store(s)", "nasim/envs/network.py")
     if reach_cond is not None and disc_cond is not None:
         a1 = {a for a in f_atoms(reach_cond) if "topology" in a}
         a2 = {a for a in f_atoms(disc_cond) if "topology" in a}
